@@ -563,7 +563,9 @@ func normalizePath(dst, src []byte) []byte {
 	if n >= 0 && n+len(bytestr.StrSlashDotDot) == len(b) {
 		nn := bytes.LastIndexByte(b[:n], '/')
 		if nn < 0 {
-			return bytestr.StrSlash
+			// not bytestr.StrSlash itself: callers keep the result as their own
+			// buffer (URI.path, Cookie.path) and write into it later
+			return append(b[:0], '/')
 		}
 		b = b[:nn+1]
 	}
